@@ -419,6 +419,33 @@ def check_req(ctx, plans, compare=True):
                              'request-level lock journal (point:Session.locked:held) differs [%s]' % shape)
 
 
+def check_internal_redirects(ctx):
+    """The planned request ends in an InternalRedirect to another resource that uses the same session (with and
+    without response.stream switched on first, every locking mode, both backends, handler touching / regenerating the
+    session first, a failing on_end_request hook beside it).  No model; oracle: after close() no lock object / lock
+    file of the session is held and Session.locked is false."""
+    base = {'kind': 'req', 'acts': ['touch'], 'out': 'iredir', 'stream': False, 'gen': False, 'genTouch': False,
+            'genRaise': False, 'consume': 'full', 'saveFails': False, 'oer': 'ok',
+            'brb': [], 'bh': [], 'bf': [], 'eer': []}
+    for mode in ('implicit', 'early', 'explicit'):
+        for file in (False, True):
+            acts0 = ['acquire', 'touch'] if mode == 'explicit' else ['touch']
+            b = dict(base, mode=mode, file=file, acts=acts0)
+            for p in (dict(b), dict(b, stream=True), dict(b, stream=True, consume='abandon'),
+                      dict(b, acts=acts0 + ['regen', 'touch']), dict(b, stream=True, acts=acts0 + ['regen', 'touch']),
+                      dict(b, eer=[[10, False, 'exc']]), dict(b, stream=True, eer=[[10, False, 'exc']]),
+                      dict(b, acts=[] if mode != 'explicit' else ['acquire']), dict(b, stream=True, afterReq=True)):
+                r = REQ.run_plan(p)
+                ctx.case(p, nontrivial=True, key='iredir ' + REQ.plan_line(p) + (' afterReq' if p.get('afterReq') else ''))
+                ctx.count('req:internal_redirect/%s/status=%s' % ('stream' if p['stream'] else 'plain', r['status']))
+                j = ','.join(r['journal'])
+                if r['leaked'] or r['locked_end'] or not j.endswith('E:0:0'):
+                    ctx.oracle_fail(p, 'after the request ended in an InternalRedirect (close() called) the session lock is '
+                                       'still held: journal %s, held lock objects/files %s, Session.locked=%s  [%s]'
+                                    % (j, r['leaked'], r['locked_end'], plan_shape(p)),
+                                    'req:lock_not_released:%s:%s' % (p['mode'], 'file' if p['file'] else 'ram'))
+
+
 def check_release_faults(ctx):
     """The FIRST release_lock() of the request fails (transient failure of the lock layer, before anything
     is released).  No model; oracle: whenever a later release attempt exists (Session.save's `finally`,
@@ -717,7 +744,7 @@ def run_one(ctx, case, variant, compare=True):
     elif kind == 'ramn':
         check_ramn(ctx, [run_ramn_case(case)], variant, compare)
     elif kind == 'req':
-        check_req(ctx, [case], compare)
+        check_req(ctx, [case], compare and case.get('out') != 'iredir' and not case.get('relFail'))
     elif kind == 'wsgi':
         check_wsgi(ctx, [case])
     elif kind == 'fileproc':
@@ -807,6 +834,7 @@ def run(ctx):
     check_req(ctx, targeted_plans(ctx.rng))
     check_req(ctx, [REQ.gen_plan(ctx.rng) for _ in range(ctx.budget(400, 12000))])
     check_release_faults(ctx)
+    check_internal_redirects(ctx)
     lap('request plans')
     check_wsgi(ctx, wsgi_systematic())
     check_wsgi(ctx, [WSGI.gen_case(ctx.rng) for _ in range(ctx.budget(120, 2500))])
@@ -851,8 +879,9 @@ def replay(ctx, case):
     elif kind == 'req':
         r = REQ.run_plan(case)
         print('impl :', json.dumps(r, sort_keys=True))
-        m = ctx.model([REQ.plan_line(case)])
-        print('model:', m[0] if m else None)
+        if case.get('out') != 'iredir':
+            m = ctx.model([REQ.plan_line(case)])
+            print('model:', m[0] if m else None)
     elif kind == 'fsched':
         o0, trace, final, obs = FS.run_case(case)
         m = ctx.model([FS.model_line(case, o0, trace, final)])
